@@ -30,21 +30,37 @@ def build_replay(repo):
     return os.path.join(env['CARGO_TARGET_DIR'], 'debug', 'replay'), ''
 
 
-def search(prop, sub, repo, failures):
+def search(prop, sub, repo, failures, tier='quick'):
+    """quick: one run of the generators with the seed of the environment (default 0); thorough: eight seeds"""
     if not sub:
         return {'witness': None, 'note': 'no witness search registered for this property'}
     exe, err = build_replay(repo)
     if exe is None:
         return {'witness': None, 'note': 'replay crate does not build against this tree: ' + err[-500:]}
-    try:
-        p = subprocess.run([exe, 'witness', sub], capture_output=True, text=True, timeout=int(os.environ.get('VERIF_WITNESS_TIMEOUT', '120')))
-    except subprocess.TimeoutExpired:
-        return {'witness': None, 'note': 'witness search timed out'}
-    out = p.stdout.strip().split('\n')
-    for ln in out:
-        if ln.startswith('WITNESS '):
-            return {'witness': ln[len('WITNESS '):], 'cmd': f'replay witness {sub}', 'exit': p.returncode}
-    return {'witness': None, 'note': (out[-1] if out else '') + ' ' + p.stderr[-300:], 'cmd': f'replay witness {sub}', 'exit': p.returncode}
+    base = int(os.environ.get('VERIF_SEED', '0') or 0)
+    seeds = [base + k for k in range(8)] if tier == 'thorough' else [base]
+    notes = []
+    evaluated = 0
+    for sd in seeds:
+        try:
+            p = subprocess.run([exe, 'witness', sub], capture_output=True, text=True, env=dict(os.environ, VERIF_SEED=str(sd)),
+                               timeout=int(os.environ.get('VERIF_WITNESS_TIMEOUT', '120' if tier != 'thorough' else '600')))
+        except subprocess.TimeoutExpired:
+            notes.append(f'seed {sd}: timed out')
+            continue
+        out = p.stdout.strip().split('\n')
+        for ln in out:
+            if ln.startswith('WITNESS '):
+                return {'witness': ln[len('WITNESS '):], 'cmd': f'VERIF_SEED={sd} replay witness {sub}', 'exit': p.returncode}
+        last = (out[-1] if out else '')
+        if 'evaluated=' in last:
+            try:
+                evaluated += int(last.split('evaluated=')[1].split()[0])
+            except ValueError:
+                pass
+        notes.append(f'seed {sd}: ' + last + ' ' + p.stderr[-200:])
+    return {'witness': None, 'note': f'NO-WITNESS seeds={seeds} evaluated={evaluated} ' + ('; '.join(n for n in notes if 'NO-WITNESS' not in n))[:600],
+            'cmd': f'replay witness {sub}', 'exit': 0}
 
 
 def write_replay(prop, failures, wit):
